@@ -93,7 +93,10 @@ def unwrap_label(label):
     return [p.replace("\\_", "_") for p in parts]
 
 
-def check_tikz(O, S, leafmap, m, evs, labmode, scheme, colid, orient, stubspec=("hash", 5)):
+SCHEMES = R.NAME_SCHEMES + ("emptyindex",)
+
+
+def check_tikz(O, S, leafmap, m, evs, labmode, scheme, colid, orient, stubspec=("hash", 5), reverse_mapping=False):
     colours = dict(colour_menu(O))[colid]
     lab = None if labmode == "none" else R.labellings_for(O, labmode)
     if lab is not None and scheme != "plain":
@@ -101,7 +104,7 @@ def check_tikz(O, S, leafmap, m, evs, labmode, scheme, colid, orient, stubspec=(
         lab = {v: tuple(ren.get(f, f) for f in syn) for v, syn in lab.items()}
     stubs.install(stubs.Stub(*stubspec))
     try:
-        rec, onode, snode, on, sn = R.build_rec(O, S, leafmap, m, lab, scheme=scheme, colours=colours)
+        rec, onode, snode, on, sn = R.build_rec(O, S, leafmap, m, lab, scheme=scheme, colours=colours, reverse_mapping=reverse_mapping)
         params = DrawParams(orientation=R.ORIENT[orient])
         lay = layout_mod.compute(rec, params)
         code = tikz_mod.render(rec, lay, params)
@@ -188,6 +191,8 @@ def check_tikz(O, S, leafmap, m, evs, labmode, scheme, colid, orient, stubspec=(
             else:
                 species_name, gene_name = on[v].rsplit("_", 1)
                 want = f"{reftext.escape(species_name)}\\textsubscript{{{reftext.escape(gene_name)}}}"
+                if gene_name == "" and shown == reftext.escape(species_name):
+                    continue        # an empty index may be shown without the (empty) subscript; escaping is what matters
                 if shown != want:
                     return ("leaf_name", f"leaf {on[v]!r} displayed as {shown!r}, expected {want!r}")
         else:
@@ -294,13 +299,15 @@ def run_shard(shard, tier, seed):
             # every colouring on every mapping (colour propagation is the delicate part), naming/labelling/orientation rotate
             for ci, colid in enumerate(cmenu):
                 labmode = ("none", "same", "losses", "gluey")[(idx + ci) % 4]
-                scheme = R.NAME_SCHEMES[(idx // 3 + ci) % 3]
+                scheme = SCHEMES[(idx // 3 + ci) % 4]
                 orient = "VH"[(idx + ci) % 2]
+                rev = bool((idx // 2 + ci) % 2)      # mapping / synteny dicts written bottom-up on every other case
                 n_eval += 1
                 if colid != "none" or scheme != "plain":
                     nt += 1
-                bad = check_tikz(O, S, leafmap, m, evs, labmode, scheme, colid, orient)
-                case = R.rec_case(osh, ssh, leafmap, m, mode="tikz", labelling=labmode, scheme=scheme, colours=colid, orientation=orient)
+                bad = check_tikz(O, S, leafmap, m, evs, labmode, scheme, colid, orient, reverse_mapping=rev)
+                case = R.rec_case(osh, ssh, leafmap, m, mode="tikz", labelling=labmode, scheme=scheme, colours=colid, orientation=orient,
+                                  reverse_mapping=rev)
                 if bad:
                     vtotal += 1
                     if len(viols) < 6 and not any(v["subcheck"] == bad[0] for v in viols):
@@ -320,6 +327,7 @@ def replay(v):
         return {"violated": bool(bad), "detail": bad}
     O, S, leafmap, m = R.rec_from_case(c)
     evs = dtl.events_of(O, S, leafmap, m)
-    bad = check_tikz(O, S, leafmap, m, evs, c["labelling"], c["scheme"], c["colours"], c["orientation"])
+    bad = check_tikz(O, S, leafmap, m, evs, c["labelling"], c["scheme"], c["colours"], c["orientation"],
+                     reverse_mapping=c.get("reverse_mapping", False))
     stubs.restore()
     return {"violated": bool(bad), "detail": (bad[0] + ": " + bad[1]) if bad else None}
